@@ -71,7 +71,8 @@ type rCfg struct {
 	Rendezvous      bool   `json:"rendezvous"`
 	StageEndDelayAt int    `json:"stage_end_delay_at"` // file mode: the stage loop is held for stage_end_delay_us when this stage (1-based) ends
 	StageEndDelayUs int64  `json:"stage_end_delay_us"`
-	StallEval       int    `json:"stall_eval"` // the trigger goroutine is held for stall_us right after this evaluation (1-based; 0 = never)
+	UIntervalUs     int64  `json:"uinterval_us"` // scripted configured-rate function: the interval it is configured for (0 = not scripted)
+	StallEval       int    `json:"stall_eval"`   // the trigger goroutine is held for stall_us right after this evaluation (1-based; 0 = never)
 	StallUs         int64  `json:"stall_us"`
 	MetricsRuns     int    `json:"metrics_runs"`
 	RunIndex        int    `json:"run_index"`
@@ -328,6 +329,8 @@ func runOne(c *ctx, rc rCase, m *metrics.Metrics) rTrace {
 		stallEval: rc.cfg.StallEval, stallUs: rc.cfg.StallUs, stageEndDelayAt: rc.cfg.StageEndDelayAt, stageEndDelayUs: rc.cfg.StageEndDelayUs}
 	verifhook.Install(rec.hook)
 	defer verifhook.Install(nil)
+	curRec.Store(rec)
+	defer curRec.Store(nil)
 	var evalMu sync.Mutex
 	wrap := func(f api.RateFunction) api.RateFunction {
 		return func(t time.Time) int {
@@ -630,6 +633,10 @@ func labelString(l map[string]string) string {
 	return strings.Join(ks, ",")
 }
 
+// curRec: the recorder of the run in progress (runs are sequential within one driver process); lets scripted rate
+// functions built by the cases log their own evaluations
+var curRec atomic.Pointer[rRec]
+
 func rateTrigger(rates *api.Rates, wrap func(api.RateFunction) api.RateFunction) *api.Trigger {
 	return &api.Trigger{Trigger: api.NewIterationWorker(rates.IterationDuration, wrap(rates.Rate)), DryRun: rates.Rate, Duration: rates.Duration}
 }
@@ -739,6 +746,36 @@ func buildCases(c *ctx) []rCase {
 		rc.cfg.StallUs = iv*1000*2 + iv*1000*int64(1+c.rng.Intn(8))/10 // 2.1 .. 2.8 intervals
 		rc.bodyMaxUs = 2000
 		add(rc)
+	}
+	// a configured rate (scripted, with zeros) spread over sub-ticks: the CONFIGURED rate is still evaluated at most
+	// once per configured interval - the sub-tick function must not come back for more
+	for _, dist := range []string{"regular", "random"} {
+		for _, iv := range []int64{300, 500} {
+			dist, iv := dist, iv
+			script := []int{6, 0, 0, 9, 0, 3, 0, 0}
+			rc := rCase{cfg: rCfg{Name: "scripted-" + dist, Mode: "constant", RateMode: true, Conc: 8, MaxDurUs: 2200 * ms, IntervalUs: 100 * ms,
+				UIntervalUs: iv * ms, Args: fmt.Sprintf("script %v per %dms, %s", script, iv, dist)},
+				build: func(w func(api.RateFunction) api.RateFunction) (*api.Trigger, error) {
+					var n atomic.Int64
+					var first atomic.Int64
+					under := func(time.Time) int {
+						k := n.Add(1)
+						if r := curRec.Load(); r != nil {
+							now := r.us()
+							first.CompareAndSwap(0, now)
+							// d = ordinal of this evaluation of the configured rate, c = time since the first one
+							r.add(rEv{K: "ueval", A: int64(script[int(k-1)%len(script)]), C: now - first.Load(), D: k})
+						}
+						return script[int(k-1)%len(script)]
+					}
+					d, fn, err := api.NewDistribution(api.DistributionType(dist), time.Duration(iv)*time.Millisecond, under, nil)
+					if err != nil {
+						return nil, err
+					}
+					return rateTrigger(&api.Rates{IterationDuration: d, Rate: fn}, w), nil
+				}, bodyMaxUs: 2000}
+			add(rc)
+		}
 	}
 	// a profile that is zero in the middle: zero-rate ticks are requests too (they supersede pending work)
 	add(rCase{cfg: rCfg{Name: "staged-zero-middle", Mode: "staged", RateMode: true, Conc: 1, MaxDurUs: 2000 * ms, IntervalUs: 20 * ms, Args: "0s:6,60ms:0,80ms:0,100ms:6"},
